@@ -167,6 +167,39 @@ fn pin_op<const V: u32>(_d: &mut Driver<V>, r: usize, may_unpin: bool) {
     }
 }
 
+/// C07 / C02: blocks in which every line keeps a survivor while other objects of the same lines
+/// die. Small objects are allocated back to back; every `k`-th one is linked into a chain that stays
+/// rooted, the others are dropped at once; then an exhaustive collection. The space is swept at a
+/// granularity (line, block, cell) coarser than the objects that died.
+fn dense_blocks<const V: u32>(d: &mut Driver<V>, p: &Params) {
+    let m = 0;
+    let head = p.nslots + 1; // root slots the random program never touches
+    let tmp = p.nslots + 2;
+    let k = 2 + d.rng.below(3) as usize;
+    let size = [32usize, 48, 64, 96][d.rng.below(4) as usize];
+    let n = 1100 + d.rng.below(500) as usize;
+    for i in 0..n {
+        safepoint();
+        let keep = i % k == 0;
+        let r = d.new_object(m, tmp, 0, size, 1, 8, 0, KIND_PLAIN);
+        if r == 0 {
+            break;
+        }
+        if keep {
+            let prev = Driver::<V>::root_get(m, head);
+            if prev != 0 {
+                d.write_field(m, tmp, 0, prev);
+            }
+            let cur = Driver::<V>::root_get(m, tmp);
+            d.set_root(m, head, cur);
+        }
+    }
+    d.set_root(m, tmp, 0);
+    d.gc(m, true);
+    d.gc(m, true);
+    d.set_root(m, head, 0);
+}
+
 pub fn random_program<const V: u32>(d: &mut Driver<V>, p: &Params, pi: u64, nops: u64, is_nogc: bool) {
     let probes = flag("probes");
     // Reset: drop every root of every bound mutator
@@ -185,6 +218,9 @@ pub fn random_program<const V: u32>(d: &mut Driver<V>, p: &Params, pi: u64, nops
     });
     ev(Obj::new("Reset").int("prog", pi as i64));
     let mut bound: Vec<bool> = with_world(|w| w.mutators.iter().map(|m| m.ptr != 0).collect());
+    if flag("dense") && pi % 3 == 0 && !is_nogc {
+        dense_blocks::<V>(d, p);
+    }
     let gc_weight = if is_nogc { 0 } else { 1 + d.rng.below(6) };
     for _ in 0..nops {
         safepoint();
